@@ -41,7 +41,7 @@ RULE = (
     "from_molecule - 1..6 atoms, charges from {1,6,7,8,9,17,35}, coordinates in [-3,3]^3, spacing 0.2..0.6, extension 1..4, "
     "rotate on/off; non-trivial = at least two atoms at different positions. closest_point - diagonal axes with signed steps, "
     "2-D/3-D, 1..8 query points inside the box incl. exact cell midpoints; non-trivial = a query that is not a node. "
-    "cube_roundtrip - shapes 2..6, skewed signed axes, 1..4 atoms, data = sign * 10^U(-20,20) (and zeros); always non-trivial. "
+    "cube_roundtrip - shapes (2..5, 2..5, 2..20) so that every residue of nz mod 6 occurs, skewed signed axes, 1..4 atoms, data = sign * 10^U(-20,20) (and zeros); always non-trivial. "
     "interpolate - UniformGrid (positive diagonal axes) or Tensor1DGrids with 7..10 points per axis, random tri-cubic "
     "coefficients, derivative orders 0..3 per axis, use_log, method cubic|linear, 1..4 query points anywhere in the box; "
     "non-trivial = a polynomial with all 64 (8 for linear) coefficients non-zero. distinct = distinct descriptor"
@@ -532,7 +532,9 @@ def body_closest(case, ctx):
 def _cube_strategy():
     return st.fixed_dictionaries(
         {
-            "shape": _shape(3, 2, 6),
+            # x, y small; the fastest axis z up to 20 so that every residue of nz modulo the six values per
+            # line of the cube format occurs (line breaks of the data block depend on it)
+            "shape": st.tuples(st.integers(2, 5), st.integers(2, 5), st.one_of(st.integers(2, 7), st.integers(2, 20))).map(list),
             "origin": st.lists(_ORIGIN_COORD, min_size=3, max_size=3),
             "axes": _axes(3).map(lambda a: a["a"]),
             "atoms": _sized(
